@@ -313,7 +313,57 @@ func TestVerif_C15(t *testing.T) {
 		rep.Eval(1)
 		rep.Count("stress_rounds", 1)
 	}
+	// (d) the router's shared registry (safeMap) under concurrent subscribe / close /
+	// disconnect / publish: the race detector (and the runtime's concurrent-map check)
+	// are the oracle here; delivery semantics are C07's subject
+	for round := 0; round < vk.N(3, 30); round++ {
+		router := mocrelay.NewRouterHandler(4)
+		var wg sync.WaitGroup
+		for w := 0; w < 6; w++ {
+			wg.Add(1)
+			go func(w int) {
+				defer wg.Done()
+				rr := vk.RNG("C15/router", round*16+w)
+				for k := 0; k < 120; k++ {
+					s := vk.StartSession(ctx, router, 16)
+					for j := 0; j < 1+rr.IntN(4); j++ {
+						sub := vk.Pick(rr, []string{"a", "b", "c"})
+						if rr.IntN(3) == 0 {
+							s.Put(&mocrelay.ClientCloseMsg{SubscriptionID: sub})
+						} else {
+							s.Put(&mocrelay.ClientReqMsg{SubscriptionID: sub, ReqFilters: []*mocrelay.ReqFilter{{Kinds: []int64{1}}}})
+						}
+					}
+					if rr.IntN(2) == 0 {
+						s.CloseRecv()
+						s.WaitDone()
+					} else {
+						s.Stop()
+					}
+					rep.Count("router_sessions", 1)
+				}
+			}(w)
+		}
+		for w := 0; w < 2; w++ {
+			wg.Add(1)
+			go func(w int) {
+				defer wg.Done()
+				s := vk.StartSession(ctx, router, 16)
+				defer s.Stop()
+				for k := 0; k < 400; k++ {
+					e := vk.Seal(&mocrelay.Event{Kind: 1, Pubkey: vk.FakePub(w), CreatedAt: int64(k), Content: fmt.Sprintf("r%d-%d-%d", round, w, k)})
+					if !s.Put(&mocrelay.ClientEventMsg{Event: e}) {
+						return
+					}
+					s.Get()
+				}
+			}(w)
+		}
+		wg.Wait()
+		rep.Eval(1)
+	}
 	pc.report(rep)
+	rep.Require(rep.Counter("router_sessions") > 500, "router sessions")
 	rep.Require(rep.Counter("porcupine_ok")+rep.Counter("porcupine_illegal") >= int64(nHist*95/100), "more than 5% of the histories were inconclusive")
 	rep.Require(rep.Counter("overlapping_operation_pairs") > int64(nHist), "too little overlap between clients")
 	rep.Require(rep.Counter("hook_hits:cache.add.checked") > 1000 && rep.Counter("hook_hits:cache.find.locked") > 1000, "verifPoints not reached")
